@@ -169,3 +169,79 @@ mod tests {
         assert!(hot.contains(&7)); // nested map header value byte
     }
 }
+
+/// Container headers (byte string, text string, array, map) that sit *contiguously* in the
+/// buffer: `(offset of the header byte, header length)`. Headers inside nested encodings that
+/// are carried as arrays of integers are not listed: an in-place word write cannot reach them.
+fn headers(b: &[u8], base: usize, pos: &mut usize, out: &mut Vec<(usize, usize)>, depth: usize) -> Option<()> {
+    if depth > 64 {
+        return None;
+    }
+    let start = *pos;
+    let (major, arg, hl) = read_arg(b, pos)?;
+    *pos += hl;
+    match major {
+        0 | 1 | 7 => {}
+        2 | 3 => {
+            out.push((base + start, hl));
+            let len = usize::try_from(arg).ok()?;
+            let end = pos.checked_add(len)?;
+            if end > b.len() {
+                return None;
+            }
+            if major == 2 && len >= 2 && b[*pos] == 1 {
+                let mut inner = 1usize;
+                let mut nested = Vec::new();
+                if headers(&b[*pos..end], base + *pos, &mut inner, &mut nested, depth + 1).is_some() && inner == len {
+                    out.extend(nested);
+                }
+            }
+            *pos = end;
+        }
+        4 => {
+            out.push((base + start, hl));
+            for _ in 0..usize::try_from(arg).ok()? {
+                headers(b, base, pos, out, depth + 1)?;
+            }
+        }
+        5 => {
+            out.push((base + start, hl));
+            for _ in 0..usize::try_from(arg).ok()?.checked_mul(2)? {
+                headers(b, base, pos, out, depth + 1)?;
+            }
+        }
+        6 => headers(b, base, pos, out, depth + 1)?,
+        _ => return None,
+    }
+    Some(())
+}
+
+/// Located length fields of a version-prefixed CBOR encoding: the explicit header arguments
+/// (1/2/4/8 bytes, big endian), every container header as a candidate for a header rewrite, and
+/// the first words of the buffer, where the legacy parsers read their counts once the version
+/// byte is gone (offsets 0 and 8; 1 and 9 behind an aggregate-signature type byte).
+pub fn word_fields(bytes: &[u8]) -> Vec<crate::faults::WordField> {
+    use crate::faults::{WordEnc, WordField};
+    let mut out = Vec::new();
+    if bytes.first() != Some(&1) {
+        return out;
+    }
+    for off in [0usize, 1, 8, 9] {
+        if off + 8 <= bytes.len() {
+            out.push(WordField { off, width: 8, enc: WordEnc::Be, hex: false });
+        }
+    }
+    let mut hs = Vec::new();
+    let mut pos = 1usize;
+    let _ = headers(bytes, 0, &mut pos, &mut hs, 0);
+    // the thousands of string headers of a big document are thinned evenly to 48
+    let keep: Vec<(usize, usize)> =
+        if hs.len() <= 48 { hs } else { (0..48).map(|i| hs[i * hs.len() / 48]).collect() };
+    for (off, hl) in keep {
+        if hl > 1 {
+            out.push(WordField { off: off + 1, width: hl - 1, enc: WordEnc::Be, hex: false });
+        }
+        out.push(WordField { off, width: 8, enc: WordEnc::CborHeader, hex: false });
+    }
+    out
+}
